@@ -25,6 +25,10 @@ class Unsupported(Exception):
     pass
 
 
+class SetIteration(Unsupported):
+    """the expression iterates over a set with several elements: no order to compare"""
+
+
 class _Instr(ast.NodeTransformer):
     def visit_Name(self, node: ast.Name) -> ast.AST:
         if isinstance(node.ctx, ast.Load):
@@ -115,6 +119,8 @@ def run_traced(node: ast.AST, env: Dict[str, Any]) -> Tuple[Any, List[Tuple[str,
 
     def it(v: Any) -> Any:
         r = iter(v)
+        if isinstance(v, (set, frozenset)) and len(v) > 1:
+            raise SetIteration()  # the order of a set is CPython's hash order, the model's is the order on the wire
         log.append(("iter", none))
         return r
 
@@ -132,6 +138,8 @@ def run_traced(node: ast.AST, env: Dict[str, Any]) -> Tuple[Any, List[Tuple[str,
     g.update({"__ev": ev, "__loadfn": loadfn, "__callfn": callfn, "__iter": it, "__range": rng, "__fmt": fmt})
     try:
         val = eval(compile(tree, "<traced>", "eval"), g)  # noqa: S307
+    except SetIteration:
+        raise
     except BaseException as e:  # noqa: B902
         if isinstance(e, KeyboardInterrupt):
             raise
